@@ -6,6 +6,7 @@ package main
 // (b|a)  compare equal.  Everything else is kept verbatim.
 
 import (
+	"math/big"
 	"sort"
 	"strings"
 )
@@ -151,11 +152,32 @@ func canonBinary(inner string) string {
 			ops = append(ops, operandsOf(x, op)...)
 		}
 		var keep []string
+		// fold the numeric operands
+		var acc *big.Int
 		for _, x := range ops {
-			if id != "" && x == id {
+			if n, ok := new(big.Int).SetString(x, 10); ok && (op == "|" || op == "+" || op == "^" || op == "*" || op == "&") {
+				if acc == nil {
+					acc = n
+					continue
+				}
+				switch op {
+				case "|":
+					acc.Or(acc, n)
+				case "+":
+					acc.Add(acc, n)
+				case "^":
+					acc.Xor(acc, n)
+				case "*":
+					acc.Mul(acc, n)
+				case "&":
+					acc.And(acc, n)
+				}
 				continue
 			}
 			keep = append(keep, x)
+		}
+		if acc != nil && !(id != "" && acc.String() == id) {
+			keep = append(keep, acc.String())
 		}
 		if len(keep) == 0 {
 			return id
